@@ -2016,6 +2016,39 @@ func genMvccSession(rng *rand.Rand, st *Stats) []string {
 			if rng.Intn(2) == 0 {
 				ops = append(ops, fmt.Sprintf("compact this=0 id=0 adj=%s", pick(rng, "0.5", "0.5", "1.5")))
 			}
+		case r < 99 && memsz == 65536 && rng.Intn(4) == 0:
+			// C28: one transaction driven to the batch limits (maxBatchCount is about a hundred with
+			// this memtable size) by overwrites of a few keys and by distinct keys; sets past the
+			// limit answer ErrTxnTooBig (the model counts exactly like Txn.checkSize) and the
+			// commit of the accepted ones must succeed
+			st.Inc("scenario_txn_to_the_limit")
+			rts := uint64(0)
+			if managed {
+				rts = math.MaxUint64
+			}
+			ops = append(ops, fmt.Sprintf("begin %d 1 %d", nextID, rts))
+			nk := pick(rng, 1, 2, 3, 200)
+			ns := 90 + rng.Intn(120)
+			var touched []string
+			for j := 0; j < ns; j++ {
+				k := append([]byte("yy"), byte(j%nk), byte(j%nk>>8))
+				v := make([]byte, rng.Intn(12))
+				rng.Read(v)
+				ops = append(ops, fmt.Sprintf("set %d %s 0 0 0 %s 0", nextID, hx(k), hx(v)))
+				if j < nk {
+					touched = append(touched, string(k))
+				}
+			}
+			c := uint64(0)
+			if managed {
+				cts++
+				c = cts
+				for _, k := range touched {
+					keyMax[k] = c
+				}
+			}
+			ops = append(ops, fmt.Sprintf("commit %d %d", nextID, c))
+			nextID++
 		case r < 99 && memsz == 65536 && rng.Intn(2) == 0:
 			// filler: big values so that tables grow past the "already big" limit of L0->L0
 			nb := 6 + rng.Intn(20)
